@@ -263,6 +263,17 @@ class BaseShadow:
         return "ADD %d %d" % (s, t)
 
 
+def _base_lazy_op(self, rng):
+    """a lazily performed operation of the base matrix: the row permutation is only applied at the next read"""
+    if self.swaps and not self.compr and self.cols:
+        a, b = rng.sample(range(self.NR), 2)
+        return "SR %d %d" % (a, b)
+    return None
+
+
+BaseShadow.lazy_op = _base_lazy_op
+
+
 class ToplexShadow:
     def __init__(self, rng, var, like=None):
         self.var = var
@@ -430,6 +441,15 @@ class _Gen:
                 self.new(d)
                 if mode == "nonempty":
                     self.drive(d, rng.randint(3, 10))
+        # sometimes the source (or the target) has deferred work pending at the moment of the derivation: an operation
+        # that the class performs lazily, issued as a quiet line (no read of any slot before the derivation)
+        for k in ((s, d) if rng.random() < 0.5 else (d, s)):
+            sh = S[k]
+            if st[k] == "live" and sh is not None and hasattr(sh, "lazy_op") and rng.random() < 0.35:
+                op = sh.lazy_op(rng)
+                if op:
+                    self.lines.append("Q %d %s" % (k, op))
+                    break
         self.lines.append("%s %d %d" % (w, d, s))
         if d == s:
             if w == "MA":
@@ -602,7 +622,7 @@ def _states(script, upto):
         w = l.split()
         if not w:
             continue
-        if w[0] in ("N", "O"):
+        if w[0] in ("N", "O", "Q"):
             st[int(w[1])] = "live"
         elif w[0] in ("D", "X"):
             st[int(w[1])] = "null"
@@ -697,7 +717,7 @@ def judge(script, answers, stderr, rc, variant=None):
     if line < n:
         sts = _states(script, line)
         w = script[line].split()
-        if w and w[0] in ("O", "X"):
+        if w and w[0] in ("O", "X", "Q"):
             on_moved = sts[int(w[1])] == "moved"
         elif w and w[0] in ("CC", "CA", "MC", "MA"):
             on_moved = sts[int(w[2])] == "moved"
